@@ -114,6 +114,7 @@ type Outcome struct {
 	Class   string // ok | panic:<kind> | exit:<n> | tests-failed | ref-budget
 	Msg     string
 	Unknown string
+	Fails   []string // messages of the failed test calls, in order
 }
 
 type ctl int
@@ -137,6 +138,7 @@ func (in *Interp) Run(prog *gen.Program, events []Event) (out Outcome) {
 	defer func() {
 		out.Events = in.Events
 		out.Unknown = in.Unknown
+		out.Fails = in.fails
 		if r := recover(); r != nil {
 			switch r := r.(type) {
 			case Panic:
@@ -171,7 +173,8 @@ func (in *Interp) Run(prog *gen.Program, events []Event) (out Outcome) {
 	in.block(prog.Stmts, false)
 	in.summary()
 	if len(in.fails) > 0 {
-		return Outcome{Class: "tests-failed"}
+		out.Class = "tests-failed"
+		return out
 	}
 	for _, ev := range events {
 		h := in.handlers[ev.Name]
